@@ -413,6 +413,10 @@ pub fn run(rep: &Arc<Report>) {
         visit(&Lit::Char(c), 0);
         visit(&Lit::Text(format!("a{c}'")), 1);
     });
+    // texts that read like SQL keywords, constants, numbers or placeholders: they are text all the same
+    for w in ["null", "NULL", "Null", "true", "FALSE", "default", "DEFAULT", "CURRENT_TIMESTAMP", "current_date", "CURRENT_TIME", "CURRENT_USER", "now()", "0", "-1", "1e3", "0x1F", "?", "$1", "NaN", "infinity", "''", "x'00'", "E'a'"] {
+        visit(&Lit::Text(w.to_string()), 0);
+    }
     // bytes: all byte strings up to length 2, every byte in a frame
     let bytes_cases = Counter::new();
     par_range(65536 + 256 + 1, 512, |_w, i| {
